@@ -427,22 +427,28 @@ impl<'a> Gen<'a> {
             return s;
         }
     }
+    /// union two S-handles unless that would make two Map keys collide (outside the claim)
+    fn try_union(&mut self, a: usize, b: usize) -> bool {
+        let mut o2 = self.or.clone();
+        o2.ensure(self.nm.s_text.len());
+        o2.union(a, b);
+        o2.close(&self.nm);
+        if o2.key_merges() > self.or.key_merges() {
+            return false;
+        }
+        self.or = o2;
+        self.ops.push(Op::Union { a, b });
+        true
+    }
     fn union(&mut self) {
         for _ in 0..6 {
             let (a, b) = (self.pick_s(false), self.pick_s(false));
             if self.or.find(a) == self.or.find(b) && self.r.chance(4, 5) {
                 continue;
             }
-            let mut o2 = self.or.clone();
-            o2.ensure(self.nm.s_text.len());
-            o2.union(a, b);
-            o2.close(&self.nm);
-            if o2.key_merges() > self.or.key_merges() {
-                continue; // would make two Map keys collide: outside the claim
+            if self.try_union(a, b) {
+                return;
             }
-            self.or = o2;
-            self.ops.push(Op::Union { a, b });
-            return;
         }
     }
     fn session(mut self, nops: usize) -> (Vec<Op>, Names) {
@@ -454,6 +460,7 @@ impl<'a> Gen<'a> {
             let s = self.pick_sort();
             self.ins(s);
         }
+        let mut chain_second_at: Option<usize> = None;
         if self.mode == Mode::Big {
             // a few filler elements become handles so that unions among fillers are generated
             self.ops.push(Op::FillHandles);
@@ -462,9 +469,30 @@ impl<'a> Gen<'a> {
                 self.nm.s_wrap_of.push(None);
             }
             self.or.ensure(self.nm.s_text.len());
+            // two-step union chains on the element of two containers that collide in the first
+            // step, random kind / interning order / shape (elements 5 -> 4 -> 3, padding 2)
+            let nchains = self.r.range(1, 3);
+            for _ in 0..nchains {
+                let sort = self.r.below(6);
+                if SORTS[sort].k == K::Map && !self.has_maps {
+                    continue;
+                }
+                let hi_first = self.r.chance(1, 2);
+                let variant = self.r.chance(1, 2);
+                let (x, y) = chain_pair(sort, 5, 4, 2, hi_first, variant);
+                for args in [x, y] {
+                    self.nm.add_h(sort, args.clone());
+                    self.ops.push(Op::Ins { sort, args });
+                }
+            }
+            self.try_union(5, 4);
+            chain_second_at = Some(self.r.below(nops.max(1)));
         }
         let templates = rule_templates();
-        for _ in 0..nops {
+        for opi in 0..nops {
+            if chain_second_at == Some(opi) {
+                self.try_union(4, 3);
+            }
             let k = self.r.below(100);
             match self.mode {
                 Mode::Pure => {
@@ -609,6 +637,81 @@ fn shape_session(r: &mut Rng) -> (Vec<Op>, Names) {
         ops.push(Op::Run(1));
     }
     (ops, nm)
+}
+
+/// two containers of base sort `sort` that differ only in one element (`hi` vs `mid`), interned
+/// in the given order (`hi_first`: the container that will be REBUILT by `union hi mid` holds the
+/// smaller id and wins the collision, so the surviving entry is re-keyed and val_index must follow)
+fn chain_pair(sort: usize, hi: usize, mid: usize, pad: usize, hi_first: bool, variant: bool) -> (Vec<Arg>, Vec<Arg>) {
+    let s = Arg::S;
+    let mk = |x: usize| -> Vec<Arg> {
+        match (SORTS[sort].k, SORTS[sort].b, variant) {
+            (K::Vec | K::Set | K::MSet, _, false) => vec![s(x)],
+            (K::Vec | K::Set | K::MSet, _, true) => vec![s(x), s(pad)],
+            (K::Pair, _, false) => vec![s(x), s(pad)],
+            (K::Pair, _, true) => vec![s(pad), s(x)],
+            (K::Map, Ty::I, false) => vec![s(x), Arg::Int(1)],
+            (K::Map, Ty::I, true) => vec![s(x), Arg::Int(2)],
+            (K::Map, _, false) => vec![s(x), s(pad)],
+            (K::Map, _, true) => vec![s(0), s(x)],
+        }
+    };
+    if hi_first {
+        (mk(hi), mk(mid))
+    } else {
+        (mk(mid), mk(hi))
+    }
+}
+
+/// fixed Big sessions (always run first in the --big entries): after the fillers, for every base
+/// container kind and both interning orders, two containers are made equal by a first union and
+/// the shared element is displaced again by a second union (two-step chains: the second
+/// incremental pass must find the surviving container through val_index); the same one level up
+/// through nesting (the displaced value is a container id)
+fn fixed_big_sessions() -> Vec<(Vec<Op>, Names, &'static str)> {
+    let mut out = Vec::new();
+    for (name, hi_first) in [("fixed-big-chain-rebuilt-wins", true), ("fixed-big-chain-stored-wins", false)] {
+        let mut nm = Names::new();
+        let mut ops = vec![Op::Filler];
+        let mut ins = |nm: &mut Names, ops: &mut Vec<Op>, sort: usize, args: Vec<Arg>| -> usize {
+            let h = nm.add_h(sort, args.clone());
+            ops.push(Op::Ins { sort, args });
+            h
+        };
+        // element chain 2 -> 1 -> 0 (ids A0 < A1 < A2: the union-find keeps the least id)
+        for sort in 0..6 {
+            for variant in [false, true] {
+                let (x, y) = chain_pair(sort, 2, 1, 5, hi_first, variant);
+                ins(&mut nm, &mut ops, sort, x);
+                ins(&mut nm, &mut ops, sort, y);
+            }
+        }
+        // nesting: R=[A0], P=[A2], Q=[A1]; outer containers of Q and P; step 1 displaces Q (P wins and
+        // the outer of Q is rebuilt), step 2 displaces P (R wins): the outer must follow
+        let r = ins(&mut nm, &mut ops, 0, vec![Arg::S(0)]);
+        let p = ins(&mut nm, &mut ops, 0, vec![Arg::S(2)]);
+        let q = ins(&mut nm, &mut ops, 0, vec![Arg::S(1)]);
+        let _ = r;
+        let (first, second) = if hi_first { (q, p) } else { (p, q) };
+        for outer in [6usize, 7, 9, 10, 11] {
+            for inner in [first, second] {
+                let args = match outer {
+                    10 => vec![Arg::H(inner), Arg::S(5)],
+                    11 => vec![Arg::S(3), Arg::H(inner)],
+                    _ => vec![Arg::H(inner)],
+                };
+                ins(&mut nm, &mut ops, outer, args);
+            }
+        }
+        ops.push(Op::Rule { id: 1 });
+        ops.push(Op::Rule { id: 5 });
+        ops.push(Op::Union { a: 2, b: 1 });
+        ops.push(Op::Run(1));
+        ops.push(Op::Union { a: 1, b: 0 });
+        ops.push(Op::Run(1));
+        out.push((ops, nm, name));
+    }
+    out
 }
 
 /// the three regression shapes of tests/container_rebuild.rs & friends, as fixed sessions
@@ -1278,6 +1381,11 @@ fn main() {
     if fixed && !big {
         for (ops, nm, name) in fixed_sessions() {
             all.push((ops, nm, Mode::Rich, serde_json::json!({"fixed": name})));
+        }
+    }
+    if fixed && big {
+        for (ops, nm, name) in fixed_big_sessions() {
+            all.push((ops, nm, Mode::Big, serde_json::json!({"fixed": name, "mode": "Big"})));
         }
     }
     for (mode, seed, case) in plan {
